@@ -8,6 +8,18 @@ CHECKS = {
  "C01": ("exploration", "property-based testing (proptest tape generator) with identity/round-trip oracle",
          "Generated (input x encoding x observer set x schedule) cases; sink bytes must equal the input byte for byte (captured text normalised via one-shot decode/encode; ambiguity error => prefix). Held on every generated case; absence is not established.",
          "Trusts encoding_rs one-shot codecs and the reported text-node ranges (checked by C14).", "4/C01"),
+ "C02": ("exploration", "property-based testing, metamorphic relation between write schedules (exhaustive 1-cut / 2-cut enumeration per generated input)",
+         "Each generated (input, encoding, observer or mutating handler set) is run under the single-write schedule and under every 1-cut (<=120 B), every 2-cut (<=24 B), byte-wise and random k-cut schedules with empty writes, plus rewrite_str; result kind, sink bytes and the normalised event log (incl. source ranges, text-chunk protocol) must be identical.",
+         "Mutation scripts are functions of token content only; a failed run is compared by result kind and prefix relation only.", "4/C02"),
+ "C06": ("exploration", "property-based testing, metamorphic relation between handler configurations (H vs H+observers)",
+         "Each generated input/schedule is run with handler set H and with 1-3 supersets H+O (O observers only); sink bytes and the events of H's handlers must be identical, i.e. tag-scan mode and full lexing agree.",
+         "Inputs are valid in their encoding and avoid characters with ASCII trail bytes so that an added text observer cannot legitimately normalise bytes (C01's documented exception).", "4/C06"),
+ "C14": ("exploration", "property-based testing with a layout-owning document generator and an independent attribute tokenizer as reference model",
+         "Generated structured documents (generator records every token's byte range) x schedules x encodings: every reported element/end tag/comment/doctype/text-node range and every attribute name/value range must equal the generator's; byte-soup inputs are checked for range invariants.",
+         "R-attr (harness WHATWG start-tag tokenizer, cross-checked against html5ever in C16) defines attribute bytes.", "4/C14"),
+ "C16": ("exploration", "property-based testing against reference models (R-attr, R-tree) plus differential against html5ever's tag token",
+         "For generated start tags with arbitrary attribute syntax in HTML/SVG/MathML context, every cut inside the tag and 36 encodings, all Element getters before and after set_attribute/remove_attribute/set_tag_name must equal the model derived from the tag's bytes.",
+         "html5ever 0.39 as WHATWG reference for single tags; lookups restricted to names set_attribute accepts.", "4/C16"),
 }
 PENDING = {}
 ALL = [f"C{i:02d}" for i in range(1, 19)]
